@@ -1,3 +1,17 @@
-import OSProofs.Props.C08
-#print axioms OS.C08_sqrt_arg_nonneg
-#print axioms OS.C08_inflate_pos
+import OSProofs.Props.C06
+#print axioms OS.delta_nonneg
+#print axioms OS.gammaVal_nonneg
+#print axioms OS.applyTeam_sigma_le
+#print axioms OS.applyTeam_sigma_le_mem
+#print axioms OS.C06_game_membership
+#print axioms OS.C06_game_membership_players
+#print axioms OS.rawResult_forall₂
+#print axioms OS.rateCore_eq_clamp
+#print axioms OS.C06_game
+#print axioms OS.C06_game_slot
+#print axioms OS.C06_rate
+#print axioms OS.C06_limit_zero_stays_zero
+#print axioms OS.C06_clamp
+#print axioms OS.C06_clamp_forall₂
+#print axioms OS.C06_history
+#print axioms OS.C06_history_limit
